@@ -1,9 +1,10 @@
 #!/bin/bash
-# usage: bulk_mutants.sh "C02/1 C02/2 ..."   -> appends to /tmp/bulk.log
+# usage: bulk_mutants.sh "C02/1 C02/2 ..." [suffix]   -> appends to /tmp/bulk.log
+SUF=${2:-out}
 for m in $1; do
   id=${m%/*}; k=${m#*/}
-  echo "##### $m $(date +%H:%M:%S)" >> /tmp/bulk.log
-  timeout 1500 /verif/tools/confirm_mutant.sh $id $k 2>&1 | cut -c1-420 >> /tmp/bulk.log
-  MAXL=2 timeout 1500 /verif/tools/try_patch.sh /tmp/wt/$id.out/patch$k.diff quick $id 2>&1 | cut -c1-320 >> /tmp/bulk.log
+  echo "##### $m ($SUF) $(date +%H:%M:%S)" >> /tmp/bulk.log
+  timeout 1500 /verif/tools/confirm_mutant.sh $id $k $SUF 2>&1 | cut -c1-420 >> /tmp/bulk.log
+  MAXL=2 timeout 1500 /verif/tools/try_patch.sh /tmp/wt/$id.$SUF/patch$k.diff quick $id 2>&1 | cut -c1-320 >> /tmp/bulk.log
 done
 echo "BULK DONE" >> /tmp/bulk.log
